@@ -413,6 +413,9 @@ def gen_chrom(rng, n, gap_mode, noise):
             level += rng.choice([-1.2, -0.8, 0.7, 1.0, 1.5])
         levels.append(level)
     gname = rng.choice(GENES)
+    # one chromosome in four carries small weights throughout (a run's summed weight then stays below 1: the weighted
+    # mean of squash_region / transfer_fields must still be used -- only a summed weight of exactly 0 falls back)
+    wscale = rng.choice([1.0, 1.0, 1.0, 0.0625])
     for i in range(n):
         if i == gap_at or i == gap2:
             pos += gap_sz
@@ -422,7 +425,7 @@ def gen_chrom(rng, n, gap_mode, noise):
         if rng.random() < 0.3:
             gname = rng.choice(GENES) if rng.random() < 0.6 else 'G%d' % rng.randint(0, 9)
         log2 = snap(levels[i] + rng.gauss(0, noise))
-        w = snap(rng.uniform(0.05, 1.0))
+        w = max(snap(rng.uniform(0.05, 1.0) * wscale), 0.0009765625)
         depth = snap(rng.uniform(0.5, 200.0))
         bins.append([pos, pos + ln, gname, log2, w, depth])
         pos += ln
